@@ -62,6 +62,10 @@ def gen_cases(tier, seed):
     for i in range(n):
         a = TM.gen_burst_then_seq(r)
         cs.append(Case("bs%d" % i, "pool", a, "burst-then-sequential", True))
+    n = 30 if tier == "quick" else 500
+    for i in range(n):
+        a = TM.gen_dead_idle_then_quiet(r)
+        cs.append(Case("dq%d" % i, "pool", a, "dead-idle-then-quiet", True))
     return cs
 
 
